@@ -62,6 +62,7 @@ Record idp_args := {
   g_pefim : bool; g_self_contained : bool;
   g_cert_assertion : cert_arg; g_cert_advice : cert_arg;
   g_md_certs : list (N * bool);                         (* the SP's encryption certificates in metadata: (key, usable) *)
+  g_verify_assertion : option N; g_verify_advice : option N;   (* verify_encrypt_cert_* configured: a callable accepting exactly the certificate of that key *)
   g_idp_key : N;
   g_pub : pubinfo
 }.
@@ -148,7 +149,7 @@ Definition is_nil {A} (l : list A) : bool := match l with [] => true | _ => fals
 
 (* [fixed] = true: _response returns early (sign only) only when no advice encryption was asked for either, and
    signs to_sign at its end when nothing got encrypted (proposed_fix/C17-1); false: the code before that repair *)
-Definition idp_build_with (fixed : bool) (g : idp_args) (i : ident) : result xml :=
+Definition response_with (fixed : bool) (g : idp_args) (i : ident) : result xml :=
   let p := g_pub g in
   let key := g_idp_key g in
   (* Server._authn_response *)
@@ -188,6 +189,24 @@ Definition idp_build_with (fixed : bool) (g : idp_args) (i : ident) : result xml
     if g_sign_response g then Ok (sign_el key (response_el p [sign_if to_sign key (main adv)]))
     else if fixed && to_sign then Ok (response_el p [sign_el key (main adv)])      (* nothing was encrypted after all *)
     else Ok (response_el p [main adv]).
+
+(* Server.gather_authn_response_args: a configured verify_encrypt_cert_* callable must be handed a certificate and accept it *)
+Definition cert_accepted (v : option N) (ca : cert_arg) : result unit :=
+  match v with
+  | None => Ok tt
+  | Some k0 => match ca with
+               | CGiven k true => if N.eqb k k0 then Ok tt else Err (E "CertificateError")
+               | _ => Err (E "CertificateError")
+               end
+  end.
+Definition gather (g : idp_args) : result unit :=
+  match (if g_enc_advice g || g_pefim g then cert_accepted (g_verify_advice g) (g_cert_advice g) else Ok tt) with
+  | Err e => Err e
+  | Ok _ => if g_encrypt_assertion g then cert_accepted (g_verify_assertion g) (g_cert_assertion g) else Ok tt
+  end.
+(* Server.create_authn_response *)
+Definition idp_build_with (fixed : bool) (g : idp_args) (i : ident) : result xml :=
+  match gather g with Err e => Err e | Ok _ => response_with fixed g i end.
 
 Definition idp_build := idp_build_with true.
 Definition idp_build_before_fix := idp_build_with false.
@@ -533,9 +552,21 @@ Definition advice_merged (tc : tcfg) (root : list dtree) (read : list N) : list 
                     end
   end.
 
+(* what C17 compares of an accepted run: which assertions are read (duplicates that the retry leaves in
+   self.assertions removed), the name identifier; validity times / came_from belong to C04 / C05 *)
+Fixpoint dedupe (l : list N) (seen : list N) : list N :=
+  match l with
+  | [] => []
+  | x :: r => if mem_N x seen then dedupe r seen else x :: dedupe r (x :: seen)
+  end.
+Definition show_read (o : outcome) : val :=
+  VL [VL (map (fun n => VZ (Z.of_N n)) (dedupe (o_assertions o) [])); show_option VS (o_name_id o)].
+Definition show_pipeline_run (c : cfg) (r : response) : val :=
+  match parse_response c r with Err _ => VE (E "rejected") | Ok o => show_read o end.
+
 Definition show_tree_run (tc : tcfg) (c : cfg) (r : response) (root : list dtree) (fs : list bool) : val :=
   match parse_response_t tc c r root fs with
   | Err _ => VE (E "rejected")
-  | Ok o => VL [show_outcome o;
-                match fs with [] => VL (map (fun n => VZ (Z.of_N n)) (advice_merged tc root (o_assertions o))) | _ => VL [] end]
+  | Ok o => VL [show_read o;
+                match fs with [] => VL (map (fun n => VZ (Z.of_N n)) (dedupe (advice_merged tc root (o_assertions o)) [])) | _ => VL [] end]
   end.
